@@ -245,6 +245,11 @@ func newCtx(tier string, shard, n int, seed int64) *Ctx {
 	return c
 }
 
+// NewWorkerCtx / Finish: for harnesses that run part of their exploration in a child
+// process of their own (e.g. a -race build) and merge its Result.
+func NewWorkerCtx(tier string, shard, n int) *Ctx { return newCtx(tier, shard, n, 0) }
+func (c *Ctx) Finish() *Result                    { return c.finish() }
+
 func (c *Ctx) finish() *Result {
 	for _, v := range c.viol {
 		c.res.Violations = append(c.res.Violations, *v)
